@@ -75,6 +75,7 @@ TraceNext ==
     \/ Step("Refresh", Refresh(Ev.h, Ev.arg))
     \/ Step("Check", Check(Ev.h))
     \/ Step("Tick", Tick)
+    \/ Step("ArmCloseErr", ArmCloseErr(Ev.cb))
     \/ Step("BreakConn", BreakConn(Ev.n))
     \/ Step("TTLExpireLayer", TTLExpireLayer(Ev.n))
     \/ Step("TTLExpireBlob", TTLExpireBlob(Ev.n))
